@@ -286,6 +286,10 @@ def hash_map_inv(fd):
     return KS(fd) == 1 and VS(fd) == 8 and PC(fd) == 0
 
 
+# helpers of the descriptor class itself are executed from their source
+HELPERS = {"inline": {"ebpfcat.hashmap:HashGlobalVarDesc.key"}}
+
+
 def hashvar_params(fmt):
     return dict(self=T.Obj(HashGlobalVarDesc, count=T.Range(1, 255), fmt=T.Const(fmt), name=T.Const("a"),
                            default=T.Const(0)),
@@ -298,7 +302,7 @@ def hashvar_get(fmt):
     p["owner"] = T.Const(None)
     return Contract(HashGlobalVarDesc.__get__, name=f"HashGlobalVarDesc.__get__<{fmt}>", params=p,
                     requires={"class_invariant": "hash_map_inv(instance.a.fd)"},
-                    ensures={}, raises=ANY_EXC, modifies=None)
+                    ensures={}, raises=ANY_EXC, modifies=None, options=HELPERS)
 
 
 def hashvar_set(fmt):
@@ -307,7 +311,7 @@ def hashvar_set(fmt):
     p["value"] = T.Range(0, 100)
     return Contract(HashGlobalVarDesc.__set__, name=f"HashGlobalVarDesc.__set__<{fmt}>", params=p,
                     requires={"class_invariant": "hash_map_inv(ebpf.a.fd)"},
-                    ensures={}, raises=ANY_EXC, modifies=None)
+                    ensures={}, raises=ANY_EXC, modifies=None, options=HELPERS)
 
 
 class Key4(Structure):
@@ -521,3 +525,40 @@ register = Contract(
               "KS(self.programs) == 4 and VS(self.programs) == 4 and PC(self.programs) == 0"},
     loops={1: Loop(invariant={}, modifies={"index": T.Int, "key": T.Bytes, "ret": T.Int})},
     raises=ANY_EXC, modifies=None, options={"generator": True})
+
+
+# ---- a hash map with more variables than one key byte can number: whatever
+# key width HashMap.init creates the map with, every variable's accessor hands
+# the kernel a key buffer at least that wide (or refuses before the call)
+class HMBig:
+    loaded = False
+    hm = HashMap()
+
+
+for _i in range(300):
+    _d = HMBig.hm.globalVar("I")
+    setattr(HMBig, f"v{_i + 1}", _d)
+    _d.__set_name__(HMBig, f"v{_i + 1}")
+
+
+def init_then_get(prog, which):
+    """what EBPF.load does with the map, then user-side accesses"""
+    HMBig.hm.init(prog, None)
+    prog.loaded = True
+    d = HMBig.__dict__["v1"] if which == 0 else HMBig.__dict__["v255"] if which == 1 else HMBig.__dict__["v300"]
+    d.__set__(prog, 7)
+    return d.__get__(prog, None)
+
+
+from struct import error as _struct_error  # noqa: E402
+
+
+def hashmap_big():
+    return Contract(
+        init_then_get, name="HashMap.init then HashGlobalVarDesc.__set__/__get__<300 variables>",
+        params=dict(prog=T.Obj(HMBig), which=T.OneOf(T.Const(0), T.Const(1), T.Const(2))),
+        # a variable whose number no key can hold is refused by struct (no kernel call is made)
+        ensures={}, raises=ANY_EXC + [Raises(_struct_error, when=None)], modifies=None,
+        options={"inline": {"ebpfcat.hashmap:HashMap.init", "ebpfcat.hashmap:HashGlobalVarDesc.__get__",
+                            "ebpfcat.hashmap:HashGlobalVarDesc.__set__", "ebpfcat.hashmap:HashGlobalVar.__init__",
+                            "ebpfcat.hashmap:HashGlobalVarDesc.key"}})
